@@ -55,6 +55,11 @@ def gen_cases(tier):
                 for c in spec["comps"]:
                     for pc in pc_options(c, PH2)[1:]:
                         yield dict(fam="phase", f=f, pal=pal, pol=1, srs=SRS, n=n, ta=-40.0, who=c["n"], pc=pc)
+        from ..sysmodel import SIG_ZERO
+        zero = Trees(SIG_ZERO[0], SIG_ZERO[1], max_one=("MX0",))
+        for n in (1, 2, 3):
+            for f in zero.iter_forests(n):
+                yield dict(fam="zero", f=f, pal=pal, pol=1, srs=SRS, n=n, ta=-40.0)
         # multi-input PMux systems: the mux row's Vin / Power / Loss follow the SELECTED input (first input dead in many of them)
         from ..muxsys import INPUT_OPTS
         import itertools
